@@ -628,7 +628,7 @@ func TestC43(t *testing.T) {
 
 	// part 2: password changes and save-failure injection (c43_fault_test.go)
 	t1 := time.Now()
-	nFault := r.N(16, 128)
+	nFault := r.N(12, 128)
 	fch := make(chan int)
 	for w := 0; w < workers; w++ {
 		wg.Add(1)
@@ -648,7 +648,10 @@ func TestC43(t *testing.T) {
 	wg.Wait()
 	r.Set("fault_wallets", nFault)
 	r.Require("original_wallet_checked_after_export", len(jobs)/8)
-	r.Require("export_other_security_cycles", 1)
+	r.Require("export_other_security_cycles", nFault/2)
+	r.Require("failed_conversion_cycles", nFault/2)
+	r.Require("failed_conversion_cycles:ToLowSecurity", 1)
+	r.Require("failed_conversion_cycles:ToDefaultSecurity", nFault/4)
 	r.Set("part2_wall_s", time.Since(t1).Seconds())
 	r.Require("password_change_roundtrips", nFault*3/4)
 	r.Require("fault_then_save_then_reload", nFault*5)
